@@ -283,7 +283,7 @@ theorem sim_retain (hE : E.Lawful) (f : K → V → Bool × V) {s : St K V Q} {d
     (hn : NodupKeys E.keq l) (hperm : l.Perm d) (hb : Benign s.w) : StepOK E (.retain f) s d := by
   unfold StepOK srun
   rcases outcome (retain_sat E (fun _ k v => f k v) f hr) with
-    ⟨_, s', hm, hc, ⟨tr, hw⟩, l', hrep, _, hl'⟩ | ⟨c, s', hm, _, hi', _⟩
+    ⟨_, s', hm, hc, ⟨tr, hw⟩, l', hrep, _, hl', _⟩ | ⟨c, s', hm, _, hi', _⟩
   rotate_left
   · exact (no_inj hb hi').elim
   have hl' := hl' (fun _ _ _ => rfl)
